@@ -19,6 +19,12 @@
                                  the overlapping grid the call chooses, origin-shift loop included: `ok ox oy nx ny`
                                  (implementation: the call itself with `Clip::None`, then the bounding box of the returned
                                  map; model: `detectOrientationIssue`, `overlappingGrid`)
+    gseg <cx> <cy> <ox> <oy> <nx> <ny> <nv> x y … <nseg> a b … <npoi> p …
+                                 step 1 for the whole geometry on a fresh grid: `ok K>V … | dart t ; …`: the content of
+                                 `new_segments` sorted by key (`R` regular, `P` point of interest, `I` intersection, `C` corner)
+                                 and the slot vector (implementation: hooks `verif::segments`, `verif::intersection_data`)
+    gedges <nv> x y … <np> K>V … <nd> d …   step 4 on the session map (hook `verif::edge_data`): `ok start n x y … end ; …`
+    gins <ne> (start n x y … end) …          step 5 on the session map (hook `verif::insert_edges`), edges in the order given
     gids <nk> k… <n> (d t|0 nan)…  steps 2 + 3 on the session map for the slot vector given (implementation: the hook
                                  `grisubal::verif::intersection_darts`; model: `stepsTwoThree` with the iteration order
                                  `k…` of the `HashMap`, `nk = 0`: first-insertion order): `ok id …` / `panic`
@@ -89,6 +95,74 @@ def parsePts : Nat → List String → Option (List (Rat × Rat) × List String)
       some ((x, y) :: r, rest')
   | _, _ => none
 
+def gvStr : GV → String
+  | .regular i => s!"R{i}"
+  | .poi i => s!"P{i}"
+  | .intersec i => s!"I{i}"
+  | .corner d => s!"C{d}"
+
+def gvKey : GV → Nat × Nat
+  | .regular i => (0, i)
+  | .poi i => (1, i)
+  | .intersec i => (2, i)
+  | .corner d => (3, d)
+
+def gvParse (t : String) : Option GV := do
+  let n ← (t.drop 1).toNat?
+  match t.front with
+  | 'R' => some (.regular n)
+  | 'P' => some (.poi n)
+  | 'I' => some (.intersec n)
+  | 'C' => some (.corner n)
+  | _ => none
+
+def gvLt (a b : GV) : Bool := (gvKey a).1 < (gvKey b).1 || ((gvKey a).1 = (gvKey b).1 && (gvKey a).2 < (gvKey b).2)
+
+def insertGV (p : GV × GV) : List (GV × GV) → List (GV × GV)
+  | [] => [p]
+  | q :: qs => if gvLt p.1 q.1 then p :: q :: qs else q :: insertGV p qs
+
+def parseNats : Nat → List String → Option (List Nat × List String)
+  | 0, rest => some ([], rest)
+  | n + 1, x :: rest => do
+      let x ← x.toNat?
+      let (r, rest') ← parseNats n rest
+      some (x :: r, rest')
+  | _, _ => none
+
+def parseGVPairs : Nat → List String → Option (List (GV × GV) × List String)
+  | 0, rest => some ([], rest)
+  | n + 1, x :: rest => do
+      match x.splitOn ">" with
+      | [k, v] =>
+          let k ← gvParse k
+          let v ← gvParse v
+          let (r, rest') ← parseGVPairs n rest
+          some ((k, v) :: r, rest')
+      | _ => none
+  | _, _ => none
+
+def parseEdges : Nat → List String → Option (List MEdge × List String)
+  | 0, rest => some ([], rest)
+  | n + 1, a :: k :: rest => do
+      let a ← a.toNat?
+      let k ← k.toNat?
+      let (pts, rest1) ← parsePts k rest
+      match rest1 with
+      | b :: rest2 =>
+          let b ← b.toNat?
+          let (r, rest3) ← parseEdges n rest2
+          some ({ start := a, inter := pts, stop := b } :: r, rest3)
+      | [] => none
+  | _, _ => none
+
+def edgeStr (e : MEdge) : String :=
+  s!"{e.start} {e.inter.length}" ++ String.join (e.inter.map fun p => s!" {ratStr p.1} {ratStr p.2}") ++ s!" {e.stop}"
+
+def slotStr : Slot → String
+  | some (d, t) => s!"{d} {ratStr t}"
+  | none => "0 nan"
+
 def parseSlots : List String → Option (List Slot)
   | [] => some []
   | d :: t :: rest => do
@@ -124,6 +198,72 @@ def topCapture (s : Sess) (toks : List String) : Option (Sess × String) :=
             some (s, "err InconsistentOrientation in-boundary-inconsistency")
           else some (s, "ok")
       | _, _, _ => some (s, "bad-op")
+  | "gseg" :: cx :: cy :: ox :: oy :: nx :: _ny :: nv :: rest =>
+      match parseRat cx, parseRat cy, parseRat ox, parseRat oy, nx.toNat?, nv.toNat? with
+      | some cx, some cy, some ox, some oy, some nx, some nv =>
+        match parsePts nv rest with
+        | some (verts, ns :: rest1) =>
+          match ns.toNat? with
+          | some ns =>
+            match parsePairs (rest1.take (2 * ns)), rest1.drop (2 * ns) with
+            | some segs, np :: rest2 =>
+              match np.toNat? with
+              | some np =>
+                match parseNats np rest2 with
+                | some (poi, []) =>
+                    if cx ≤ 0 ∨ cy ≤ 0 ∨ segs.length ≠ ns ∨ segs.any (fun p => p.1 ≥ nv ∨ p.2 ≥ nv) then some (s, "bad-op") else
+                    let g : GGrid := { ox := ox, oy := oy, cx := cx, cy := cy, nx := nx }
+                    let all := segmentsOf g epsF64 poi verts segs
+                    -- the content of the `HashMap`: one value per key (the last one), sorted by key
+                    let keys := (all.map (·.1)).eraseDups
+                    let content := keys.filterMap fun k => (segNext all k).map fun v => (k, v)
+                    let sorted := content.foldl (fun acc p => insertGV p acc) []
+                    some (s, "ok " ++ " ".intercalate (sorted.map fun p => gvStr p.1 ++ ">" ++ gvStr p.2) ++ " | " ++
+                      " ; ".intercalate ((slotsAll g epsF64 verts segs).map slotStr))
+                | _ => some (s, "bad-op")
+              | none => some (s, "bad-op")
+            | _, _ => some (s, "bad-op")
+          | none => some (s, "bad-op")
+        | _ => some (s, "bad-op")
+      | _, _, _, _, _, _ => some (s, "bad-op")
+  | "gedges" :: nv :: rest =>
+      if s.dim ≠ 2 then some (s, "bad-op") else
+      match nv.toNat? with
+      | none => some (s, "bad-op")
+      | some nv =>
+        match parsePts nv rest with
+        | some (verts, np :: rest1) =>
+          match np.toNat? with
+          | some np =>
+            match parseGVPairs np rest1 with
+            | some (pairs, nd :: rest2) =>
+              match nd.toNat? with
+              | some nd =>
+                match parseNats nd rest2 with
+                | some (darts, []) =>
+                    match edgeData (s.m.β 1) (s.m.β 2) verts pairs darts (crossKeys pairs) with
+                    | .ok es => some (s, if es.isEmpty then "ok" else "ok " ++ " ; ".intercalate (es.map edgeStr))
+                    | .panic => some (s, "panic")
+                    | .diverges => some (s, "diverges")
+                | _ => some (s, "bad-op")
+              | none => some (s, "bad-op")
+            | _ => some (s, "bad-op")
+          | none => some (s, "bad-op")
+        | _ => some (s, "bad-op")
+  | "gins" :: ne :: rest =>
+      if s.dim ≠ 2 ∨ s.cfg.kinds.getD sBd 9 = 9 then some (s, "bad-op") else
+      match ne.toNat? with
+      | none => some (s, "bad-op")
+      | some ne =>
+        match parseEdges ne rest with
+        | some (edges, []) =>
+            if edges.any (fun e => e.start ≥ s.m.n ∨ e.stop ≥ s.m.n) then some (s, "bad-op") else
+            let (o, m') := stepFive s.m (anchorsRegistered s) edges
+            match o with
+            | .ok _ => some ({ s with m := m' }, "ok")
+            | .retry => some ({ s with m := m' }, "diverges")
+            | _ => some ({ s with m := m' }, "panic")
+        | _ => some (s, "bad-op")
   | "gids" :: nk :: rest =>
       if s.dim ≠ 2 then some (s, "bad-op") else
       match nk.toNat? with
